@@ -74,6 +74,32 @@ def runHistory (ops : List Op) (keys : List String) : SExpr :=
       go st' rest (obsState st' keys :: acc)
   .list (go St.init ops [])
 
+def parseOutcome : SExpr → Option Outcome
+  | .list [.atom "ret", .atom n] => n.toNat?.map .ret
+  | .list [.atom "raise", .atom n] => n.toNat?.map .raise
+  | _ => none
+
+def parseEv : SExpr → Option Ev
+  | .list [.atom "start", .atom s, o, t] => do
+    let title := match t with
+      | .str x => some x
+      | _ => none
+    pure (.start (← s.toNat?) (← parseOptNat o) title)
+  | .list [.atom "complete", .atom c, out] => do pure (.complete (← c.toNat?) (← parseOutcome out))
+  | x => (parseOp x).map .op
+
+def renderOutcome : Outcome → SExpr
+  | .ret n => .list [.atom "ret", .atom (toString n)]
+  | .raise n => .list [.atom "raise", .atom (toString n)]
+
+/-- concurrent history: the final state as `history` renders it, and per finished task how it ended -/
+def runConc (evs : List Ev) (keys : List String) : SExpr :=
+  let cs := crun evs
+  let done := cs.done.map (fun p => SExpr.list [.atom (toString p.1), match p.2 with
+    | .got c out => .list [.atom "got", .atom (toString c), renderOutcome out]
+    | .failedEarly => .atom "failedEarly"])
+  .list [obsState cs.st keys, .list done, .atom (toString cs.pending.length)]
+
 def parseClassTable (s : String) : Option ClassTable :=
   match SExpr.parse s with
   | some (.list xs) => xs.mapM (fun x => match x with
@@ -258,6 +284,12 @@ def handle (op : String) (args : List String) : String :=
     match SExpr.parse ops, (SExpr.parse keys).bind strsOfSExpr with
     | some (.list xs), some ks => (match xs.mapM parseOp with
       | some ops => "ok\t" ++ (runHistory ops ks).render
+      | none => bad)
+    | _, _ => bad
+  | "conc", [evs, keys] =>
+    match SExpr.parse evs, (SExpr.parse keys).bind strsOfSExpr with
+    | some (.list xs), some ks => (match xs.mapM parseEv with
+      | some evs => "ok\t" ++ (runConc evs ks).render
       | none => bad)
     | _, _ => bad
   | "findEDS", [e] => match parseExpr e with
